@@ -82,9 +82,11 @@ def gen_assign_case(rng, quick):
                 if rng.random() < 0.4:
                     for k in range(d):
                         r[k] += rng.randint(-2, 2) * cell[k]
-    wmode = rng.choice(["none", "pow2", "any"])
+    wmode = rng.choice(["none", "pow2", "any", "zeros", "zeros"])
     w = None
-    if wmode != "none":
+    if wmode == "zeros":                       # integer weights with exact zeros (bootstrap counts / masks)
+        w = [int(x) for x in K.gen_count_weights(rng, n)]
+    elif wmode != "none":
         w = [rng.randint(1, 9) for _ in range(n)]
         if wmode == "pow2":
             tot = sum(w)
@@ -92,7 +94,7 @@ def gen_assign_case(rng, quick):
             w[-1] += p2 - tot
     tot = n if w is None else sum(w)
     exact = (tot & (tot - 1)) == 0
-    return dict(part="A", d=d, sbits=sbits, cell=cell, D=Dz, G=Gz, w=w, exact=exact, gridmode=mode)
+    return dict(part="A", d=d, sbits=sbits, cell=cell, D=Dz, G=Gz, w=w, exact=exact, gridmode=mode, wmode=wmode)
 
 
 def _np_inputs(case):
@@ -115,6 +117,16 @@ def run_assign_impl(case):
                     members=[[int(i) for i in neigh[j]] for j in range(len(G))])
     except Exception as e:  # noqa
         return dict(error=type(e).__name__, error_msg=str(e)[:300])
+
+
+def _wellformed(case, rec):
+    """the observed record can be written as Coq literals (labels / members are indices in range)"""
+    if "error" in rec:
+        return False
+    n, ng = len(case["D"]), len(case["G"])
+    return (all(0 <= j < ng for j in rec["labels"]) and len(rec["members"]) == ng
+            and all(0 <= i < n for m in rec["members"] for i in m) and len(rec["npoints"]) == ng
+            and len(rec["gweight"]) == ng)
 
 
 def assign_case_coq(case, rec):
@@ -201,6 +213,7 @@ def part_a(ctx, stats):
     for c, r in zip(cases, recs):
         st["periodic"] += c["cell"] is not None
         st["exact_weights"] += c["exact"]
+        st["zero_weight_cases"] = st.get("zero_weight_cases", 0) + (c["w"] is not None and 0 in c["w"])
         st["dims"][str(c["d"])] = st["dims"].get(str(c["d"]), 0) + 1
         st["gridmodes"][c["gridmode"]] = st["gridmodes"].get(c["gridmode"], 0) + 1
         if "error" in r:
@@ -219,7 +232,7 @@ def part_a(ctx, stats):
         if h not in seen and len(c["G"]) >= 2 and len(set(r["labels"])) >= 2:
             nontrivial += 1
         seen.add(h)
-    idx = [i for i, r in enumerate(recs) if "error" not in r]
+    idx = [i for i, r in enumerate(recs) if _wellformed(cases[i], r)]
     per = 130
     groups = [idx[i:i + per] for i in range(0, len(idx), per)]
     shards = []
@@ -229,7 +242,7 @@ def part_a(ctx, stats):
                       "Open Scope Z_scope.\nDefinition verdicts : list bool := [\n %s].\n"
                       "Eval vm_compute in (failing verdicts).\n" % body)
     outs = C.run_shards(ctx.prop + "a", shards)
-    mismatched = [i for i, r in enumerate(recs) if "error" in r]
+    mismatched = [i for i, r in enumerate(recs) if not _wellformed(cases[i], r)]
     for g, (rc, out) in zip(groups, outs):
         lists = C.parse_nat_lists(out)
         if rc != 0 or len(lists) != 1:
@@ -312,7 +325,7 @@ def part_am(ctx, stats):
         st["differs_from_default"] += deflab != metlab
         st["ties"] += any(sum(1 for x in row if x == min(row)) > 1 for row in rows)
         st["nontrivial"] += len(c["G"]) >= 2 and len(set(metlab)) >= 2 and deflab != metlab
-    idx = [i for i, r in enumerate(recs) if "error" not in r]
+    idx = [i for i, r in enumerate(recs) if _wellformed(cases[i], r)]
     per = 130
     groups = [idx[i:i + per] for i in range(0, len(idx), per)]
     shards = []
@@ -322,7 +335,7 @@ def part_am(ctx, stats):
                       "Open Scope Z_scope.\nDefinition verdicts : list bool := [\n %s].\n"
                       "Eval vm_compute in (failing verdicts).\n" % body)
     outs = C.run_shards(ctx.prop + "m", shards)
-    mismatched = [i for i, r in enumerate(recs) if "error" in r]
+    mismatched = [i for i, r in enumerate(recs) if not _wellformed(cases[i], r)]
     for g, (rc, out) in zip(groups, outs):
         lists = C.parse_nat_lists(out)
         if rc != 0 or len(lists) != 1:
@@ -437,6 +450,24 @@ def part_bc(ctx, stats):
             cm["labels_differ_from_default"] += deflab != r["labels"]
             mc = r.get("metric_calls")
             cm["metric_calls_min"] = mc if cm["metric_calls_min"] is None else min(mc, cm["metric_calls_min"])
+    # ---- user weights with EXACT zeros: bootstrap counts / masks (every descriptor still gets a label) ----
+    st["zero_weight_cases"] = 0
+    for _ in range(25 if ctx.quick else 200):
+        c = K.gen_fit_case(ctx.rng, ctx.quick)
+        c["w"] = K.gen_count_weights(ctx.rng, len(c["D"]))
+        try:
+            nonterm = K.predicted_nontermination(c, K.grid_weights_only(c))
+        except Exception:  # noqa
+            nonterm = False
+        if nonterm:
+            st["skipped_predicted_nontermination"] += 1
+            continue
+        est, r = K.fit_impl(c)
+        if est is not None:
+            K.score_impl(est, c, r)
+        cases.append(c)
+        recs.append(r)
+        st["zero_weight_cases"] += 1
     # ---- histories on one object: every fit of a history is ALSO an ordinary case (fresh object) ----
     hists = []
     for _ in range(40 if ctx.quick else 400):
@@ -515,6 +546,7 @@ def part_bc(ctx, stats):
         inv[what + ":" + status] = inv.get(what + ":" + status, 0) + 1
         if msg:
             report("invariance", msg, c, r, key=invariance_key(c2, msg), extra=dict(transformed_case=c2))
+    presentations(ctx, st, report)
     directed(ctx, st)
     # ---- correspondence of the mixture formula inside Coq ------------------------------------
     idx = []
@@ -734,6 +766,108 @@ def part_h(ctx, hists, st):
     st["histories"] = hst
 
 
+def presentations(ctx, st, report):
+    """the SAME values handed over as another dtype / memory layout (grid, descriptors, weights, queries):
+    integer lattices as int64/int32, float32, Fortran order, strided views, weight lists.  Exact kinds must
+    reproduce the float64 C-order run; float32 may legitimately compute parts in single precision (as found:
+    _local_population and the circular mean work in the grid's dtype) and is compared loosely, gated."""
+    rng = ctx.rng
+    ps = dict(cases=0, variants=0, kinds={}, exact_same=0, f32_close=0, f32_skipped_gate=0,
+              as_found_int_grid_with_cell_raises=0, base_skipped=0)
+    st["presentations"] = ps
+    for _ in range(30 if ctx.quick else 250):
+        lattice = rng.random() < 0.6
+        if lattice:
+            c = K.gen_fit_case(rng, ctx.quick, force=dict(kind="lattice", gridmode="subset"))
+            if c["cell"] is not None:
+                c["cell"] = [float(max(4, round(x))) for x in c["cell"]]
+            c["Q"] = [[float(round(x)) for x in q] for q in c["Q"]]
+            if rng.random() < 0.6:
+                c["w"] = [float(rng.randint(0, 4)) for _ in c["D"]]
+                if sum(c["w"]) == 0:
+                    c["w"][0] = 1.0
+        else:
+            c = K.gen_fit_case(rng, ctx.quick)
+        try:
+            if len(c["G"]) < 2 or K.predicted_nontermination(c, K.grid_weights_only(c)):
+                ps["base_skipped"] += 1
+                continue
+        except Exception:  # noqa
+            ps["base_skipped"] += 1
+            continue
+        est0, r0 = K.fit_impl(c)
+        if est0 is None:
+            ps["base_skipped"] += 1
+            continue
+        K.score_impl(est0, c, r0)
+        if "score_error" in r0 or K.oracle_bandwidth(c, r0)[0] or K.oracle_mixture(c, r0):
+            ps["base_skipped"] += 1          # the plain presentation is judged by the ordinary families
+            continue
+        ps["cases"] += 1
+        intw = c["w"] is not None and all(float(x).is_integer() for x in c["w"])
+        for _v in range(2):
+            opts = dict(G=["f32", "fortran", "noncontig"], D=["f32", "fortran", "noncontig"],
+                        Q=["f32", "fortran", "noncontig"], w=["f32", "list", "noncontig"])
+            if lattice:
+                for key in ("G", "D", "Q"):
+                    opts[key] += ["int64", "int32", "int64"]
+                if intw:
+                    opts["w"] += ["int64", "int32"]
+            pr = {}
+            for key in ("G", "D", "w", "Q"):
+                if rng.random() < 0.5 and not (key == "w" and c["w"] is None):
+                    pr[key] = rng.choice(opts[key])
+            if not pr:
+                pr["G"] = rng.choice(opts["G"])
+            c2 = dict(c, present=pr)
+            est2, r2 = K.fit_impl(c2)
+            if est2 is not None:
+                K.score_impl(est2, c2, r2)
+            ps["variants"] += 1
+            for key, how in pr.items():
+                ps["kinds"][key + ":" + how] = ps["kinds"].get(key + ":" + how, 0) + 1
+            if (c["cell"] is not None and pr.get("G") in ("int64", "int32")
+                    and r2.get("error") == "UFuncTypeError"):
+                # as found on the unchanged code: _local_population wraps `xy -= np.round(xy / cell) * cell`
+                # in place, which numpy refuses for an integer grid; not a statement of C17 (reported in the
+                # meta note as an observation, proposed repair fixes/F38_local_population_integer_grid.diff)
+                ps["as_found_int_grid_with_cell_raises"] += 1
+                continue
+            f32 = "f32" in pr.values()
+            msg, _b = K.oracle_bandwidth(c2, r2)
+            if not msg and "error" not in r2:
+                msg = K.oracle_state(c2, r2, tol=1e-5 if f32 else 1e-9, wtol=1e-6 if f32 else 1e-12)
+            if not msg and "error" not in r2:
+                msg = K.oracle_mixture(c2, r2, rtol=1e-4, atol=1e-4) if f32 else K.oracle_mixture(c2, r2)
+            if msg:
+                report("presentation %s" % pr, msg, c2, r2)
+                continue
+            if "error" in r2:
+                continue
+            if not f32:
+                same = (r2["labels"] == r0["labels"] and r2["members"] == r0["members"]
+                        and all(K._same(r2[k], r0[k]) for k in ("bandwidth", "W", "weights", "scores")))
+                if same:
+                    ps["exact_same"] += 1
+                elif not ps.get("reported"):
+                    ps["reported"] = True
+                    C.report_violation(ctx, "C17 presentations: the same values as %s give a different fitted state / "
+                                       "scores than as float64 C-order arrays" % pr,
+                                       dict(case=c2, observed=_slim(r2), reference=_slim(r0),
+                                            note="the property oracles accept both"), found_input=False)
+            else:
+                if (K.borderline(c, r0, eps=1e-3) or min(K.reach_of(g["wlocal"]) for g in r0["grids"]) < 1e-3
+                        or any(np.linalg.cond(np.array(h)) > 1e4 for h in r0["bandwidth"])
+                        or r2["labels"] != r0["labels"]):
+                    ps["f32_skipped_gate"] += 1
+                    continue
+                close = all(K._same(r2[k], r0[k], rtol=1e-3) for k in ("bandwidth", "W", "weights"))
+                if close:
+                    ps["f32_close"] += 1
+                else:
+                    ps["f32_far"] = ps.get("f32_far", 0) + 1      # recorded, not alarmed: single precision as found
+
+
 def bw_case_coq(case, rec):
     grids = sorted(rec["grids"], key=lambda g: g["idx"])
     eigs = "[" + "; ".join(C.flist([z.real for z in g["eig"]]) for g in grids) + "]"
@@ -803,10 +937,11 @@ def check_fit_case(c, rng, timeout=10):
     if est is None:
         return out, r
     K.score_impl(est, c, r)
-    msg = K.oracle_state(c, r)
+    f32 = "f32" in (c.get("present") or {}).values()       # single precision as found: looser statement
+    msg = K.oracle_state(c, r, tol=1e-5 if f32 else 1e-9, wtol=1e-6 if f32 else 1e-12)
     if msg:
         return [("assignment", msg, None, None)], r
-    msg = K.oracle_mixture(c, r)
+    msg = K.oracle_mixture(c, r, rtol=1e-4, atol=1e-4) if f32 else K.oracle_mixture(c, r)
     if msg:
         return [("mixture", msg, None, None)], r
     if c.get("transformed_case") is not None:
